@@ -759,8 +759,8 @@ func (fv *FV) appendBuiltin(e *Env, x *ast.CallExpr) Value {
 	c := fv.s.freshConst("cap", sInt)
 	fv.s.assume(le(n, c))
 	if isObjectType(elem) {
-		// copy of existing elements is abstracted; new elements are copied in
-		fv.note("append on struct-element slice: prefix contents abstracted")
+		// the new backing array holds copies of the existing elements, then the new ones
+		fv.copyElemPrefix(e, elem, r, s)
 		for i, v := range vals {
 			fv.copyObject(e, fv.elemAddr(elem, r, add(s.Len, intLit(int64(i)))), v.T, elem)
 		}
@@ -1041,6 +1041,55 @@ func (fv *FV) modLocations(pre *Env, cl *Clause, bind map[types.Object]Value) []
 }
 
 // ---------------------------------------------------------------------------
+// copyElemPrefix: after append on a slice of structs the fresh backing array r
+// holds, at index i < len(s), a field-wise copy of s[i]. Every leaf component
+// is replaced by a new array that agrees with the old one outside r and with
+// the source elements inside the copied prefix.
+func (fv *FV) copyElemPrefix(e *Env, elem types.Type, r Term, s Value) {
+	if e.dead {
+		return
+	}
+	iv := Term{"i!cp", sInt}
+	dst0 := fv.elemAddr(elem, r, iv)
+	src0 := fv.elemAddr(elem, s.T, add(s.Off, iv))
+	var walk func(t types.Type, dst, src Term)
+	copyComp := func(comp, sort string, dst, src Term) {
+		old := fv.heapGet(e, comp, arrSort(sRef, sort))
+		nn := fv.s.freshConst(comp, old.Sort)
+		fv.s.assume(Term{fmt.Sprintf("(forall ((x Ref)) (! (=> (not (= (root x) %s)) (= (select %s x) (select %s x))) :pattern ((select %s x))))", r.S, nn.S, old.S, nn.S), sBool})
+		fv.s.assume(Term{fmt.Sprintf("(forall ((i!cp Int)) (! (=> (and (<= 0 i!cp) (< i!cp %s)) (= (select %s %s) (select %s %s))) :pattern (%s)))", s.Len.S, nn.S, dst.S, old.S, src.S, dst0.S), sBool})
+		fv.heapSet(e, comp, nn)
+	}
+	walk = func(t types.Type, dst, src Term) {
+		if isBigInt(t) {
+			copyComp("bigval", sInt, dst, src)
+			return
+		}
+		st := structOf(t)
+		if st == nil {
+			return
+		}
+		for i := 0; i < st.NumFields(); i++ {
+			f := st.Field(i)
+			if isObjectType(f.Type()) {
+				walk(f.Type(), fv.fieldAddr(t, f, dst), fv.fieldAddr(t, f, src))
+				continue
+			}
+			k, srt := sortOf(f.Type())
+			comp := fieldComp(t, f)
+			if k == kSlice {
+				copyComp(comp+"#arr", sRef, dst, src)
+				copyComp(comp+"#off", sInt, dst, src)
+				copyComp(comp+"#len", sInt, dst, src)
+				copyComp(comp+"#cap", sInt, dst, src)
+				continue
+			}
+			copyComp(comp, srt, dst, src)
+		}
+	}
+	walk(elem, dst0, src0)
+}
+
 // closureAcc records a function literal with a checked `closure N accepts P` clause.
 type closureAcc struct {
 	lit *ast.FuncLit
